@@ -100,7 +100,8 @@ static void tj_case(char *a, char *b)
   o += sprintf(o, " set=%d", rc);
   if (rc == 0) {
     int rw = w == 0 ? sw - x : w, rh = h == 0 ? sh - y : h, i, bad = 0, by = -1;
-    int ex0 = !fu && x > 0, ex1 = !fu && x + rw < sw;
+    /* fancy upsampling: first/last column of a cropped region may differ (a region of <= 2 columns consists of them) */
+    int ex0 = !fu && rw != sw && (x > 0 || rw <= 2), ex1 = !fu && rw != sw && (x + rw < sw || rw <= 2);
     if (x == 0 && y == 0 && w == 0 && h == 0) { rw = sw; rh = sh; }
     part = (unsigned char *)malloc((size_t)rw * rh * ps + 64);
     memset(part, 0x5A, (size_t)rw * rh * ps + 64);
@@ -127,7 +128,7 @@ int main(void)
   setvbuf(stdout, NULL, _IOLBF, 0);
   while (fgets(line, sizeof(line), stdin)) {
     char *f[5]; int nf = 0, r; char *p = line; char kind = line[0];
-    alarm(30);   /* a hang of the library on this case kills the process; the check resumes after it */
+    alarm(6);    /* a hang of the library on this case kills the process; the check resumes after it */
     size_t L = strlen(line); while (L && (line[L - 1] == '\n' || line[L - 1] == '\r')) line[--L] = 0;
     if (L < 3) { printf("bad-case\n"); continue; }
     p = line + 2; f[nf++] = p;
